@@ -72,7 +72,7 @@ class C08(PipelineCheck):
         if case.get('mode') == 'plain':
             if not case['events']:
                 return False
-            ok = valid(case['program'], St('int', False), Flags(dual=True, no_mut_stream=True, deny=('dist_update', 'sort', 'to_deque')))
+            ok = valid(case['program'], St('int', False), Flags(dual=True, no_mut_stream=True, deny=('dist_update', 'sort', 'to_deque'), deny_accs=('nreset',)))
         else:
             ok = PipelineCheck.valid(self, case)
         return ok and path_to_first_tee(case['program']) is not None
@@ -86,7 +86,7 @@ class C08(PipelineCheck):
         parties, maxev = self.sizes(rng, tier)
         g = Gen(rng, weights=self.weights, max_nest=2, small=(tier == 'quick'))
         if rng.random() < 0.15:
-            fl = Flags(dual=True, no_mut_stream=True, deny=('dist_update', 'sort', 'to_deque'))
+            fl = Flags(dual=True, no_mut_stream=True, deny=('dist_update', 'sort', 'to_deque'), deny_accs=('nreset',))
             st = St('int', False)
             pre = g.pipeline(st, fl.sub(deny=('tee_map', 'dist_update', 'sort', 'to_deque', 'take', 'first', 'last', 'to_list', 'batch')), 0, 1) \
                 if rng.random() < 0.3 else []
